@@ -1,17 +1,17 @@
-\* (D) on the model: 1 node, 2 pods, one dimension
+\* (D) on the model, exhaustive: 1 node, 1 pod, one dimension, every legal event order, all timestamp relations
+\* around the report interval (1, 2) and the estimation windows (none / 1 s after scheduled, none / 1 s after initialized)
 SPECIFICATION MCSpec
 CONSTANTS
   Dims = {"cpu"}
   Nodes = {"n1"}
-  PodNames = {"p1", "p2"}
+  PodNames = {"p1"}
   ReqVals = {0, 1, 3}
   UsageVals = {0, 2}
-  Times = {0, 1, 2}
-  RIs = {1}
-  MaxClock = 2
-  MCEstSched = 1
-  MCEstInit = 1
-  MCIncludeSys = TRUE
+  Times = {0, 1, 2, 3}
+  RIs = {1, 2}
+  MaxClock = 3
+  MCEstScheds <- OptSec1
+  MCEstInits <- OptSec1
   NodeChange = FALSE
 INVARIANT MembersOK
 INVARIANT NoDrift
